@@ -42,10 +42,10 @@ def model_check(ctx):
     jobs = [
         lambda: ctx.mc("Export", "MC_Export_q.cfg" if q else "MC_Export_t.cfg", workers=6 if q else "auto",
                        label=("vti: every shape (1..3)^3 x {plain 3-D array, 1, 2, 3 components}, labelled arrays, Flatten then Parse;  "
-                              "stl: every boolean mask on every shape (1..2)^3 plus all masks with <= %s filled or <= %s empty voxels on %s, voxel sizes (1,1,1) and (2,3,4), "
-                              "Triangulate then Parse") % ((2, 2, "3x3x2") if q else (3, 3, "3x3x2, 3x2x2, 2x3x3, 3x1x3, 1x3x2, 3x3x3"))),
+                              "stl: every boolean mask on every shape (1..2)^3 plus all masks with <= %s filled or <= %s empty voxels on %s, voxel size %s, "
+                              "Triangulate then Parse") % ((2, 2, "3x3x2", "(2,3,4)") if q else (3, 3, "3x3x2, 3x2x2, 2x3x3, 3x1x3, 1x3x2, 3x3x3", "(1,1,1) and (2,3,4)"))),
         lambda: ctx.mc("ExportProgress", "MC_ExportProgress_q.cfg" if q else "MC_ExportProgress_t.cfg", workers=4 if q else "auto",
-                       label="progress reporter: every segment start in 0..%d x length 0..%d, one Step per executed time step then Close" % ((45, 64) if q else (120, 230))),
+                       label="progress reporter: every segment start in 0..%d x length 0..%d, one Step per executed time step then Close" % ((25, 45) if q else (120, 230))),
     ]
     # negative instances (each must be rejected by TLC):
     #   neg  z-fastest (C order) flattening        neg2 internal faces emitted          neg3 one triangle per face
@@ -143,7 +143,7 @@ def gen_cases(ctx):
             n += 1
             filled = [list(c) for j, c in enumerate(cells) if bits >> j & 1]
             yield {"id": f"stl-{n}-s{s}-m{bits}".replace(" ", ""), "kind": "stl", "s": list(s), "filled": filled, "scale": [(1, 1, 1), (2, 3, 4), (3, 1, 2)][n % 3],
-                   "file": n % 2 == 0 or len(filled) == 0, "path": ("str", "Path")[n % 2]}
+                   "file": n % 2 == 0 or len(filled) == 0, "path": ("str", "Path")[n % 2], "lib": ("np", "jax", "np_f")[n % 5 % 3]}
     # ---- 3x3x2: all masks with <= 2 filled or <= 2 empty voxels (quick: a seeded third of them), thorough also <= 3
     cells = list(itertools.product(range(3), range(3), range(2)))
     K = 2 if not full else 3
@@ -155,13 +155,13 @@ def gen_cases(ctx):
     for kind, filled in fam:
         n += 1
         yield {"id": f"stl-{n}-332-{kind}", "kind": "stl", "s": [3, 3, 2], "filled": [list(c) for c in filled], "scale": [(1, 1, 1), (2, 3, 4), (1, 5, 2)][n % 3],
-               "file": n % 4 == 0, "path": "str"}
+               "file": n % 4 == 0, "path": "str", "lib": ("np", "np_f", "jax")[n % 7 % 3]}
     # ---- seeded random masks on larger shapes
     for i in range(16 if not full else 120):
         s = [rng.randint(1, 4) for _ in range(3)]
         p = rng.choice((0.2, 0.5, 0.8))
         filled = [list(c) for c in itertools.product(*(range(v) for v in s)) if rng.random() < p]
-        yield {"id": f"stl-rand-{i}", "kind": "stl", "s": s, "filled": filled, "scale": [rng.randint(1, 4) for _ in range(3)], "file": i % 2 == 0, "path": "Path"}
+        yield {"id": f"stl-rand-{i}", "kind": "stl", "s": s, "filled": filled, "scale": [rng.randint(1, 4) for _ in range(3)], "file": i % 2 == 0, "path": "Path", "lib": ("jax", "np", "np_f")[i % 3]}
 
     # ---- progress: the real helpers around a lax.while_loop
     totals = (0, 1, 2, 5, 19, 20, 21, 40, 41, 57, 100, 101, 250) if not full else tuple(range(0, 45)) + (57, 99, 100, 101, 199, 200, 201, 250, 399, 400, 401, 1000, 1001)
@@ -389,7 +389,15 @@ def _observe_stl(case):
     m = np.zeros(tuple(s), dtype=bool)
     for p in case["filled"]:
         m[tuple(p)] = True
-    rec = {"id": case["id"], "kind": "stl", "s": s, "m": m.astype(int).tolist(), "scale": list(case["scale"]), "raised": False, "err": "", "tris": [], "has_file": bool(case["file"]),
+    mask01 = m.astype(int).tolist()
+    lib = case.get("lib", "np")
+    if lib == "jax":        # utils/logger.py hands `np.round(indices) == idx` of a jax array to export_stl
+        import jax.numpy as jnp
+
+        m = jnp.asarray(m)
+    elif lib == "np_f":
+        m = np.asfortranarray(m)
+    rec = {"id": case["id"], "kind": "stl", "s": s, "m": mask01, "lib": lib, "scale": list(case["scale"]), "raised": False, "err": "", "tris": [], "has_file": bool(case["file"]),
            "ftris": [], "fnormals": [], "fcount": 0, "fsize_ok": True, "dev": 0, "n_filled": len(case["filled"])}
     path = _tmp(case["id"] + ".stl")
     try:
